@@ -19,7 +19,8 @@ RULE = ("for each of the three field configurations (pysnark.zkinterface.backend
         "instance ids 1..n with the public values, free_variable_id = n+m+1 and field_maximum = p-1 little-endian; the "
         "witness assigns exactly ids n+1..n+m; constraints decode to the recorder's under that numbering with canonical "
         "coefficients (< p); the decoded assignment satisfies a decoded constraint iff the trace does; the two files "
-        "agree on header and constraints; with the private values re-drawn circuit.zkif is byte-identical. Non-trivial = "
+        "agree on header and constraints; with the private values re-drawn circuit.zkif is byte-identical. Plus deterministic large traces (1 to 1025 "
+        "[thorough: 4097] constraints) per configuration. Non-trivial = "
         ">= 1 public, >= 1 private, >= 1 constraint and a value or scalar outside [0,p); distinct by (config, trace) digest.")
 
 CONFIGS = ["zkinterface", "zkifbellman", "zkifbulletproofs"]
@@ -27,6 +28,12 @@ CONFIGS = ["zkinterface", "zkifbellman", "zkifbulletproofs"]
 
 def check_file(msgs, expect_kinds, ref, p, label):
     kinds = [k for k, _ in msgs]
+    # the format allows a constraint system to be spread over several ConstraintSystem messages: they are concatenated
+    ncs = len([k for k in kinds if k == "ConstraintSystem"])
+    if ncs >= 1 and kinds[:len(expect_kinds) - 1] == expect_kinds[:-1] and kinds[len(expect_kinds) - 1:] == ["ConstraintSystem"] * ncs:
+        merged = {"constraints": [c for k, b in msgs if k == "ConstraintSystem" for c in b["constraints"]]}
+        msgs = [(k, b) for k, b in msgs if k != "ConstraintSystem"] + [("ConstraintSystem", merged)]
+        kinds = [k for k, _ in msgs]
     if kinds != expect_kinds:
         return "%s contains messages %r, expected %r" % (label, kinds, expect_kinds)
     num, pubs, privs = backends.file_numbering(ref["kinds"])
@@ -221,7 +228,30 @@ def shard(name, seed, n_examples, programs):
     return stats
 
 
+def large_shard(name, sizes):
+    stats = core.Stats()
+    e = Env(name)
+    p = backends.FIELDS[name]
+    try:
+        for n in sizes:
+            trace = backends.large_trace(n, p)
+            case = {"config": name, "large": n}
+            msg = quiet(judge, trace, name, e.mod, e.tmp, None, None)
+            stats.case(case, True, ("large-trace", "config:" + name), sample_cap=2)
+            if msg:
+                stats.violations.append({"case": case, "msg": "%s, trace with %d constraints: %s" % (name, n, msg), "key": "large"})
+    finally:
+        e.close()
+    return stats
+
+
 def replay(case):
+    if "large" in case:
+        e = Env(case["config"])
+        try:
+            return quiet(judge, backends.large_trace(case["large"], backends.FIELDS[case["config"]]), case["config"], e.mod, e.tmp, None, None)
+        finally:
+            e.close()
     e = Env(case["config"])
     try:
         return quiet(judge, case["trace"], case["config"], e.mod, e.tmp, case.get("alt_privs"), case.get("split"))
@@ -240,4 +270,7 @@ def run(ctx):
         for k in range(5):
             jobs.append(dict(name=c, seed=ctx.seed * 1000 + 31 * i + k, n_examples=n, programs=(k % 2 == 0)))
     ctx.stats = core.run_shards("harness.checks.c11", "shard", jobs)
+    sizes = [1, 255, 256, 1000, 1001, 1025] if ctx.tier == "quick" else [1, 85, 255, 256, 257, 999, 1000, 1001, 1024, 1025, 2047, 2501, 4097]
+    lj = [dict(name=c, sizes=sizes[i::4]) for c in CONFIGS for i in range(4)]
+    ctx.stats.merge_json(core.run_shards("harness.checks.c11", "large_shard", lj).to_json())
     ctx.stats.extra["configs"] = CONFIGS
